@@ -69,13 +69,18 @@ pub fn run_schedule(tx: &tir::Tx, env: &Env, sched: &[Stage]) -> (u8, Option<tir
         let mut t = tx.clone();
         let mut compiler = new_compiler(env.coins, env.mainnet, env.slot, env.time);
         for s in sched {
+            // every stage through the versioned envelope, the way the resolver calls them
+            let any = tx3_tir::encoding::AnyTir::V1Beta0(t);
+            let unwrap = |a: tx3_tir::encoding::AnyTir| match a {
+                tx3_tir::encoding::AnyTir::V1Beta0(x) => x,
+            };
             t = match s {
-                Stage::A => reduce::apply_args(t, &env.args).map_err(|e| e.to_string())?,
-                Stage::I => reduce::apply_inputs(t, &env.ins).map_err(|e| e.to_string())?,
-                Stage::F => reduce::apply_fees(t, env.fee).map_err(|e| e.to_string())?,
-                Stage::C => t.apply(&mut compiler).map_err(|e| e.to_string())?,
+                Stage::A => unwrap(reduce::apply_args(any, &env.args).map_err(|e| e.to_string())?),
+                Stage::I => unwrap(reduce::apply_inputs(any, &env.ins).map_err(|e| e.to_string())?),
+                Stage::F => unwrap(reduce::apply_fees(any, env.fee).map_err(|e| e.to_string())?),
+                Stage::C => unwrap(any.apply(&mut compiler).map_err(|e| e.to_string())?),
                 Stage::R => {
-                    let once = reduce::reduce(t).map_err(|e| e.to_string())?;
+                    let once = unwrap(reduce::reduce(any).map_err(|e| e.to_string())?);
                     // reducing an already reduced template changes nothing
                     if let Ok(twice) = reduce::reduce(once.clone()) {
                         if tx_gal(&twice) != tx_gal(&once) {
